@@ -37,6 +37,10 @@ claimed = {
              note="Precondition assumed as stated in the evidence (disjoint sites / overhang windows, cuts >= 2 overhangs apart). Layout structure is enumerated; the solver covers the filler bases (site detection is decided by domain tables because the filler cannot form a site)."),
  "C14": dict(design="5/C14", text="gff.Build then gff.Parse from SSA on structured sequences whose letters and field texts are symbolic: region name/bounds, the full sequence across the 70-column wrap (lengths around every wrap boundary; every length 1..212 in thorough), the nine columns, attributes and the 1-based/0-based coordinate conversion are preserved, and a parsed feature's GetSequence is bases start..end; no panic.",
              note="Preconditions as listed in the evidence (non-empty region name, RegionStart 1, RegionEnd = length, version set, >= 1 attribute). The independent-writer clause is covered only by the repository's excerpt as a translator-validation vector."),
+ "C16": dict(design="5/C16", text="rebase.Parse from SSA on generated listings (prose line, supplier table indented with spaces or tabs, 0..2/3 records) whose field texts, enzyme names, supplier letters and supplier names are symbolic: one entry per record keyed by name, every field verbatim, isoschizomers split at commas, empty fields stay empty, each supplier letter decoded to the name given in the listing's own table. Export: the JSON export parses back to the same map under the json field/tag contract model.",
+             note="Enzyme names and supplier letters are assumed pairwise distinct. JSON text layer not modelled (see C15)."),
+ "C15": dict(design="5/C15", text="json.MarshalIndent -> polyjson.Parse on structured annotated sequences (symbolic strings, flags and bounds; references, Other map and attribute maps absent / empty / populated; nested location trees): every field except ParentSequence equal, every feature re-linked to a parent and reporting the same sequence as before.",
+             note="encoding/json is replaced by a contract model that reads the real struct types and tags of /repo's current source through go/types (exported fields, names, '-', omitempty, duplicate-name elimination, case-insensitive decode, nil<->null); JSON text syntax/escaping/non-ASCII and the format->JSON->format sentence are outside the claim. Counterexamples are replayed natively against the real encoding/json."),
 }
 
 na_reason = {}
